@@ -814,7 +814,7 @@ func (s *projState) judgeRun(res *Result, sched Sched, forceBefore bool, oi stri
 			}
 		}
 	} else if obs.Failed && !anyMissing && prop == "C10" {
-		if strings.Contains(strings.ToLower(obs.ErrText), "cache") {
+		if lt := strings.ToLower(obs.ErrText); strings.Contains(lt, "cache") || strings.Contains(lt, ".spok") {
 			res.count("probe:explicit_cache_error_after_kill")
 		} else {
 			res.violate("C10", "failure-after-kill-is-about-the-cache", sig, "%s failed after a kill, no command fails and every dependency exists, yet the error does not mention the cache: %s", oi, short(obs.ErrText, 300))
